@@ -338,6 +338,13 @@ class ExprMixin:
     def global_name(self, name, st):
         if name in self.reg.classes:
             return PyVal("class", name=name)
+        imp = self.module_imports.get(name)
+        if imp is not None and not imp.startswith("module:"):
+            mod, _, fn = imp.rpartition(".")
+            if mod in ("random", "math", "copy", "functools", "itertools", "time"):
+                return PyVal("func", name="%s.%s" % (mod, fn))
+            if mod in ("numpy", "numpy.random"):
+                return PyVal("func", name="np.%s" % fn if mod == "numpy" else "np.random.%s" % fn)
         if name in ("math", "np", "numpy", "random", "itertools", "functools", "time", "sys", "copy", "json", "sqlite3", "os"):
             return PyVal("module", name=name)
         if name in self.module_consts:
@@ -734,6 +741,10 @@ class ExprMixin:
                 s = self.reg.static(base.name, attr)
                 if s is not None:
                     return self.static_value(s)
+                cv = self.reg.class_var(base.name, attr)
+                if cv is not None:
+                    key = "$cv.%s.%s" % (cv[0], attr)
+                    return SV(cv[1], st.harr(key, sort_of(cv[1])))
                 return PyVal("classattr", cls=base.name, name=attr)
             if base.kind == "ns":
                 if attr in base.table:
@@ -745,6 +756,9 @@ class ExprMixin:
             base = self.unopt(base, st, spec)
         if base.ty.kind == "ref":
             cname = base.ty.arg
+            if attr == "__class__":
+                self.ctx.models_used.add("obj.__class__ is the statically declared class of obj (A4)")
+                return PyVal("class", name=cname)
             if self.reg.field(cname, attr) is not None:
                 return self.read_field(base, attr, st, spec)
             s = self.reg.static(cname, attr)
@@ -895,8 +909,21 @@ class ExprMixin:
 
     def ev_Dict(self, node, st, spec):
         if not node.keys:
-            return PyVal("emptydict")
+            return self.new_record(st)
         raise Unsupported("dict literal")
+
+    def new_record(self, st):
+        """dict() / {} stored where a record (dict with constant keys) lives: a fresh record object without keys"""
+        hint = self.pending_list_type
+        if hint is not None and hint.kind == "ref" and hint.arg in self.reg.classes and self.reg.classes[hint.arg].rec:
+            r = st.new_ref()
+            cd = self.reg.classes[hint.arg]
+            for k in cd.optional:
+                hk = "%s.has_%s" % (cd.name, k)
+                arr = st.harr(hk, z3.ArraySort(z3.IntSort(), z3.BoolSort()))
+                st.hset(hk, z3.Store(arr, r, z3.BoolVal(False)))
+            return SV(hint, r)
+        return PyVal("emptydict")
 
     def spec_text(self, text, st):
         node = ast.parse(text.strip(), mode="eval").body
